@@ -569,11 +569,9 @@ func (e *Engine) NewTx(ctx context.Context, opts *TxOptions) (*SQLTx, error) {
 	// bypass catalog.load() entirely. Only cache when the caller did not
 	// mutate the schema (write transactions are never cached).
 	if opts.ReadOnly {
-		e.catalogMu.Lock()
-		if e.cachedCatalog == nil {
-			e.cachedCatalog = catalog
-		}
-		e.catalogMu.Unlock()
+		// only when no DDL was committed since this tx read the cache version: otherwise the
+		// catalog just loaded may predate that DDL and would stay cached after its invalidation
+		e.tryPopulateCatalogCache(catalog, openVersion)
 	}
 
 	return &SQLTx{
